@@ -76,7 +76,7 @@ def build(reg):
     m.fn("JointDegreeSplitDegree.create_jdd", params={"blk": ArrT(INT, JDD)}, ghost=["blk"], assigns=["_jdd"],
          requires={"args": "self._low_high_degree_bound[0] >= 0 and len(self._probs) >= 1"},
          ensures={"every_degree_of_the_range_keeps_its_block": BLOCKS.replace("IT", "hi0").replace("self._jdd[", "pre[").replace(" in self._jdd", " in pre"),
-                  "mass_only_on_degrees_of_the_range": RANGE.replace("IT", "hi0"),
+                  "mass_only_on_degrees_of_the_range": RANGE.replace("< IT", "<= hi0"),      # "every k in the degree range": whether the upper bound itself belongs to the range is left open by the statement
                   "normalised": "keyset_eq(self._jdd, pre) and forall_elem(key, JD, implies(key in pre, self._jdd[key] == pre[key] / msum(pre))) and implies(exists_elem(key, JD, key in pre), msum(self._jdd) == 1)", "frame": FR},
          raises={"ZeroDivisionError": dict(when="True", only=False)},
          loops={0: dict(snap={"lo0": "self._low_high_degree_bound[0]", "hi0": "self._low_high_degree_bound[1]"},
@@ -93,7 +93,7 @@ def build(reg):
           requires={"args": "self._low_high_degree_bound[0] >= 0 and len(self._probs) >= 1 and len(self._motif_sizes) == len(self._probs)"},
           ensures={"other_degrees_are_pure_first_topology_degree": PURE.replace("IT", "hi0").replace("self._jdd[", "pre[").replace(" in self._jdd", " in pre"),
                    "target_degree_keeps_its_split": SPLIT_AT_TARGET.replace("IT", "hi0").replace("self._jdd[", "pre[").replace(" in self._jdd", " in pre"),
-                   "mass_only_on_degrees_of_the_range": RANGE.replace("IT", "hi0"),
+                   "mass_only_on_degrees_of_the_range": RANGE.replace("< IT", "<= hi0"),      # "every k in the degree range": whether the upper bound itself belongs to the range is left open by the statement
                    "normalised": "keyset_eq(self._jdd, pre) and forall_elem(key, JD, implies(key in pre, self._jdd[key] == pre[key] / msum(pre))) and implies(exists_elem(key, JD, key in pre), msum(self._jdd) == 1)", "frame": FRD},
           raises={"ZeroDivisionError": dict(when="True", only=False)},
           loops={0: dict(snap={"lo0": "self._low_high_degree_bound[0]", "hi0": "self._low_high_degree_bound[1]"},
